@@ -235,6 +235,12 @@ fn draw_setup(w: &mut World) -> Setup {
         apps[last].id = id0;
         apps[last].cohort.hint = Some("second-insertion-hint".to_string());
     }
+    else if napps >= 2 && w.draws.draw("setup/case_variant_ids", 8) == 7 {
+        // two different apps whose ids differ in the case of letters only
+        w.stat("config.app_ids_differ_in_case_only");
+        let swapped: String = apps[0].id.chars().map(|c| if c.is_ascii_lowercase() { c.to_ascii_uppercase() } else { c.to_ascii_lowercase() }).collect();
+        apps[1].id = swapped;
+    }
     let system_idx = if w.draws.chance("setup/system_nonzero", p.system_app_nonzero_permille) && napps > 1 {
         1 + w.draws.draw("setup/system_idx", napps as u64 - 1) as usize
     } else {
@@ -302,8 +308,12 @@ fn draw_setup(w: &mut World) -> Setup {
         }
         2 => {
             w.stat("time.wall_init_far_future");
-            // beyond i64 microseconds
-            w.wall_base = (i64::MAX as i128) * 1000 + 5_000_000_000;
+            // beyond i64 microseconds: just past the limit, or past u64 microseconds as well
+            w.wall_base = match w.draws.draw("setup/wall_init.far", 3) {
+                0 => (i64::MAX as i128) * 1000 + 5_000_000_000,
+                1 => ((1i128 << 64) + 12_345) * 1000 + 678,
+                _ => ((1i128 << 65) + 1_700_000_000_000_000) * 1000,
+            };
         }
         _ => {
             w.stat("time.wall_init_sub_us");
@@ -346,7 +356,13 @@ fn draw_setup(w: &mut World) -> Setup {
                         v
                     }
                 }
-                _ => (i64::MAX as i128) * 1000 + 17,
+                _ => {
+                    if w.draws.draw(&format!("setup/clock_jump#{j}/far"), 3) == 2 {
+                        ((1i128 << 64) + 1_700_000_012_345) * 1000 + 17
+                    } else {
+                        (i64::MAX as i128) * 1000 + 17
+                    }
+                }
             };
             w.jumps.push((at, delta));
         }
@@ -561,7 +577,7 @@ fn run_life(world: &Shared, setup: &Setup, steps: &mut u64) -> LifeEnd {
         let outage = w.profile.net.outage_permille;
         w.server.outage_status = if w.draws.chance(&format!("L{life}/outage"), outage) {
             w.stat("net.outage_lifetime");
-            Some([503u16, 429, 500, 404, 302][w.draws.draw(&format!("L{life}/outage.status"), 5) as usize])
+            Some([503u16, 429, 500, 404, 302, 1, 2][w.draws.draw(&format!("L{life}/outage.status"), 7) as usize])
         } else {
             None
         };
@@ -893,23 +909,32 @@ fn run_life(world: &Shared, setup: &Setup, steps: &mut u64) -> LifeEnd {
                 };
                 if let Some(h) = h {
                     let source = setup.client_reqs[c as usize][r as usize].source;
-                    lock(world).rec(Kind::CtlInvoke { client: c, req: r, source: conv::src(source) });
                     lock(world).stat("ctl.request");
                     let sticky = sticky_handles.get(c as usize).and_then(|s| s.clone());
                     let fut = match sticky {
                         Some(rc) => {
                             lock(world).stat("ctl.request_through_the_clients_one_handle");
+                            let wd = world.clone();
                             async move {
+                                // the client's earlier request through this handle may still be under way:
+                                // this one is made (and counts as invoked) once the handle is free
                                 let mut g = rc.lock().await;
+                                {
+                                    let _e = EnvGuard::enter();
+                                    lock(&wd).rec(Kind::CtlInvoke { client: c, req: r, source: conv::src(source) });
+                                }
                                 g.start_update_check(CheckOptions { source }).await
                             }
                             .boxed_local()
                         }
-                        None => async move {
-                            let mut h = h;
-                            h.start_update_check(CheckOptions { source }).await
+                        None => {
+                            lock(world).rec(Kind::CtlInvoke { client: c, req: r, source: conv::src(source) });
+                            async move {
+                                let mut h = h;
+                                h.start_update_check(CheckOptions { source }).await
+                            }
+                            .boxed_local()
                         }
-                        .boxed_local(),
                     };
                     let flag = WakeFlag::new();
                     let mut cf = ClientFut { client: c, req: r, fut, flag, poll_scheduled: false };
@@ -1007,10 +1032,19 @@ fn run_life(world: &Shared, setup: &Setup, steps: &mut u64) -> LifeEnd {
                             let mut w = lock(&wd);
                             if mutate {
                                 let hint = format!("embedder-hint-{k}");
+                                let bump = w.profile.neighbour_bumps_version;
                                 if let Some(app) = _g.apps.first_mut() {
                                     app.cohort.hint = Some(hint.clone());
+                                    let version = if bump {
+                                        // the embedder also notes that the app is at another version now
+                                        let v = vec![7, 7, 7, k];
+                                        app.version = [7u32, 7, 7, k].into();
+                                        Some(v)
+                                    } else {
+                                        None
+                                    };
                                     w.stat("embedder.app_set_changed_by_neighbour");
-                                    w.rec(Kind::NeighbourMutate { app: app.id.clone(), hint });
+                                    w.rec(Kind::NeighbourMutate { app: app.id.clone(), hint, version });
                                 }
                             }
                             w.new_op("neighbour.hold", None).0
